@@ -855,6 +855,94 @@ namespace plan
             pl->params().setParam(name, std::to_string(v));
     }
 
+    // Generated planner configuration: every parameter a planner declares with a range suggestion ("0,1", "lo:hi" or "lo:step:hi" -- the
+    // library's own statement of the values it accepts) may be set to a value inside that range. Parameters that change what the
+    // oracle may assume or that the harness sets itself are left alone: range / goal_bias (set by the caller), intermediate_states
+    // (separate registry entries, not strictly re-checkable), thread counts and sub-planner lists (threaded variants are C19's),
+    // and the GNAT shape parameters of STRIDE (mutually constrained). Integer ranges are capped at 2000 to keep cases small.
+    // Decoding: one byte decides whether the case is tuned at all (exhausted input -> untouched defaults), then one byte per parameter.
+    inline std::string tuneParams(vf::Src &s, const ob::PlannerPtr &pl, int per256 = 90)
+    {
+        std::string log;
+        if (!s.chance(per256))
+            return log;
+        static const char *skip[] = {"range", "goal_bias", "intermediate_states", "thread_count", "num_threads", "num_planners", "planners", "degree",
+                                     "min_degree", "max_degree", "max_pts_per_leaf", "estimated_dimension"};
+        std::vector<std::string> names;
+        pl->params().getParamNames(names);
+        std::sort(names.begin(), names.end());
+        for (auto &nm : names)
+        {
+            bool skipped = false;
+            for (auto *k : skip)
+                if (nm == k)
+                    skipped = true;
+            if (skipped)
+                continue;
+            const std::string sug = pl->params().getParam(nm)->getRangeSuggestion();
+            if (sug.empty())
+                continue;
+            if (!s.chance(80))
+                continue;
+            std::string val;
+            if (sug == "0,1")
+                val = pl->params().getParam(nm)->getValue() == "1" ? "0" : "1";
+            else
+            {
+                std::vector<std::string> parts;
+                size_t a = 0;
+                while (true)
+                {
+                    size_t b = sug.find(':', a);
+                    parts.push_back(sug.substr(a, b == std::string::npos ? b : b - a));
+                    if (b == std::string::npos)
+                        break;
+                    a = b + 1;
+                }
+                if (parts.size() < 2)
+                    continue;
+                double lo, hi;
+                try
+                {
+                    lo = std::stod(parts.front());
+                    hi = std::stod(parts.back());
+                }
+                catch (...)
+                {
+                    continue;
+                }
+                bool integral = parts.front().find('.') == std::string::npos && parts.back().find('.') == std::string::npos;
+                if (integral)
+                    hi = std::min(hi, 2000.0);
+                if (!(hi >= lo))
+                    continue;
+                double v;
+                switch (s.weighted({2, 1, 1}))
+                {
+                    case 0:
+                        v = (lo > 0 && hi / lo > 100) ? std::exp(s.real(std::log(lo), std::log(hi))) : s.real(lo, hi);
+                        break;
+                    case 1:
+                        v = lo;
+                        break;
+                    default:
+                        v = hi;
+                }
+                if (integral)
+                    val = std::to_string((long)std::floor(v + 0.5));
+                else
+                {
+                    char buf[40];
+                    snprintf(buf, sizeof buf, "%.6g", v);
+                    val = buf;
+                }
+            }
+            bool ok = pl->params().setParam(nm, val);
+            log += " " + nm + "=" + val + (ok ? "" : "(refused)");
+        }
+        return log;
+    }
+
     // ---------------------------------------------------------------------------------------------------------
     // The path oracle (C01 clauses 2-4). Returns "" when fine; otherwise "key|message".
     struct PathVerdict
